@@ -313,6 +313,13 @@ func buildStd(spec Spec, n int32, timeTweak map[int32]int64) *World {
 				w.Outs[nm] = out{Op: outpoint(f, uint32(i)), Value: outs[i].Value, Script: outs[i].PkScript, Height: 3}
 			}
 			o.Txs = []*wire.MsgTx{f}
+		case 9:
+			// the default parent of the candidates (height 9) spends
+			// coinbase(1):3: an output "spent in the parent"
+			cb1 := w.Blocks[0].Msg.Transactions[0]
+			in := out{Op: outpoint(cb1, 3), Value: cb1.TxOut[3].Value}
+			w.Outs["spent-in-parent"] = out{Op: in.Op, Value: in.Value, Script: lab.OpTrue, Height: 1}
+			o.Txs = []*wire.MsgTx{spendTx(1, []out{in}, 0xffffffff, []*wire.TxOut{txo(in.Value-3, lab.OpTrue)}, 0)}
 		case 4:
 			cb1 := w.Blocks[0].Msg.Transactions[0]
 			in := out{Op: outpoint(cb1, 2), Value: cb1.TxOut[2].Value}
